@@ -299,6 +299,10 @@ class Inliner:
             if rep is not None:
                 out.extend(rep)
                 continue
+            rep = self.try_generator_loop(st, local_defs, depth)
+            if rep is not None:
+                out.extend(rep)
+                continue
             st = self.subst_expr_helpers(st, local_defs)
             for fld in ('body', 'orelse', 'finalbody'):
                 if isinstance(getattr(st, fld, None), list) and not isinstance(st, (ast.FunctionDef, ast.ClassDef)):
@@ -307,6 +311,58 @@ class Inliner:
                 h.body = self.stmts(h.body, local_defs, depth)
             out.append(st)
         return out
+
+    def try_generator_loop(self, st, local_defs, depth):
+        """`for T in self._gen(args): BODY` with a private generator helper: the generator's body with every `yield v` replaced
+        by `T = v; BODY` (generator fusion).  Only when BODY cannot leave the loop early and the generator has no return/yield from."""
+        if depth <= 0 or not isinstance(st, ast.For) or st.orelse or not isinstance(st.iter, ast.Call):
+            return None
+        h, recv = self.resolve(st.iter, local_defs)
+        if h is None or isinstance(h, ast.Lambda):
+            return None
+        if h is self.func.node or h.name in self.skip or (self.only is not None and h.name not in self.only):
+            return None
+        if self.only is None and h not in self.local_nodes and (not h.name.startswith('_') or (h.name.startswith('__') and h.name.endswith('__'))):
+            return None
+        a = h.args
+        if a.vararg or a.kwarg or a.kwonlyargs or any(norm(d) not in ('staticmethod', 'classmethod') for d in h.decorator_list):
+            return None
+        ys = [n for n in walk_no_nested(h) if isinstance(n, ast.Yield)]
+        if not ys or any(isinstance(n, (ast.YieldFrom, ast.Return, ast.Await, ast.Global, ast.Nonlocal, ast.FunctionDef, ast.Lambda, ast.ClassDef)) for n in walk_no_nested(h)):
+            return None
+        # every yield is a statement of its own with a value
+        ystmts = [n for n in walk_no_nested(h) if isinstance(n, ast.Expr) and isinstance(n.value, ast.Yield) and n.value.value is not None]
+        if len(ystmts) != len(ys):
+            return None
+        if any(isinstance(n, (ast.Break, ast.Continue, ast.Return, ast.Yield, ast.YieldFrom)) for b in st.body for n in ast.walk(b)):
+            return None
+        b = self.bind(h, st.iter, recv)
+        if b is None:
+            return None
+        prelude, ren = b
+        body = [s_ for s_ in clone(h.body) if not (isinstance(s_, ast.Expr) and isinstance(s_.value, ast.Constant) and isinstance(s_.value.value, str))]
+        body = [ren.visit(s_) for s_ in body]
+        target, loop_body = st.target, st.body
+
+        def repl(stmts):
+            out = []
+            for s_ in stmts:
+                if isinstance(s_, ast.Expr) and isinstance(s_.value, ast.Yield):
+                    out.append(ast.copy_location(ast.Assign(targets=[clone(target)], value=s_.value.value), s_))
+                    out.extend(clone(loop_body))
+                    continue
+                for fld in ('body', 'orelse', 'finalbody'):
+                    if isinstance(getattr(s_, fld, None), list):
+                        setattr(s_, fld, repl(getattr(s_, fld)))
+                for hd in getattr(s_, 'handlers', []) or []:
+                    hd.body = repl(hd.body)
+                out.append(s_)
+            return out
+        fused = prelude + repl(body)
+        for s_ in fused:
+            ast.fix_missing_locations(s_)
+        self.inlined.append(h.name)
+        return self.stmts(fused, local_defs, depth - 1)
 
     def try_statement(self, st, local_defs, depth):
         if depth <= 0:
